@@ -205,6 +205,19 @@ func (p *Packer) packWalkFn(root, src, dst string, tarW *tar.Writer, meta *Meta,
 			return nil
 		}
 
+		// Work out where this entry lies inside the slug. While walking a
+		// dereferenced directory that is not where it lies on disk, and it
+		// is the position inside the slug that ignore rules and symlink
+		// targets are judged by.
+		archivePath := strings.Replace(path, src, dst, 1)
+		subpath, err = filepath.Rel(root, archivePath)
+		if err != nil {
+			return fmt.Errorf("failed to get relative path for file %q: %w", path, err)
+		}
+		if subpath == "." {
+			return nil
+		}
+
 		if r := matchIgnoreRules(subpath, ignoreRules); r.Excluded {
 			return nil
 		}
@@ -219,15 +232,6 @@ func (p *Packer) packWalkFn(root, src, dst string, tarW *tar.Writer, meta *Meta,
 					return nil
 				}
 			}
-		}
-
-		// Get the relative path from the initial root directory.
-		subpath, err = filepath.Rel(root, strings.Replace(path, src, dst, 1))
-		if err != nil {
-			return fmt.Errorf("failed to get relative path for file %q: %w", path, err)
-		}
-		if subpath == "." {
-			return nil
 		}
 
 		// Check the file type and if we need to write the body.
@@ -265,7 +269,7 @@ func (p *Packer) packWalkFn(root, src, dst string, tarW *tar.Writer, meta *Meta,
 			}
 
 			// Check if the symlink's target falls within the root.
-			if ok, err := p.validSymlink(root, path, target); ok {
+			if ok, err := p.validSymlink(root, archivePath, target); ok {
 				// We can simply copy the link.
 				header.Typeflag = tar.TypeSymlink
 				header.Linkname = filepath.ToSlash(target)
@@ -286,7 +290,7 @@ func (p *Packer) packWalkFn(root, src, dst string, tarW *tar.Writer, meta *Meta,
 			// If the target is a directory we can recurse into the target
 			// directory by calling the packWalkFn with updated arguments.
 			if resolved.info.IsDir() {
-				return filepath.Walk(resolved.absTarget, p.packWalkFn(root, resolved.absTarget, path, tarW, meta, ignoreRules))
+				return filepath.Walk(resolved.absTarget, p.packWalkFn(root, resolved.absTarget, archivePath, tarW, meta, ignoreRules))
 			}
 
 			// Dereference this symlink by updating the header with the target file
